@@ -4,12 +4,14 @@ import urllib.parse as U
 from .common import Exc
 
 SCHEMES = ["http://", "https://", "HTTP://", "hTTps://", "ftp://", "//", ""]
-USERINFO = ["", "", "", "u@", "u:p@", "u:@", ":p@", "%75:p%40@", "u%3A:p@", "é:p@", "a b@"]
-HOSTS = ["x.com", "X.COM", "www.x.com", "lemonde.fr", "café.fr", "xn--caf-dma.fr", "CAFÉ.fr", "blog.télérama.xn--p1ai", "xn--tlrama-bvab.xn--ii.fr", "xn--caf-dma.café.fr", "a.b.co.uk", "127.0.0.1", "[::1]", "localhost", "m.x.com", "forum-m.x.com"]
+USERINFO = ["", "", "", "", "u@", "u:p@", "u:@", ":p@", "%75:p%40@", "u%3A:p@", "é:p@", "a b@", "User:Pass@", "a%5Bb:%5D@", "U%41:P%2F@"]
+HOSTS = ["x.com", "X.COM", "www.x.com", "lemonde.fr", "café.fr", "xn--caf-dma.fr", "CAFÉ.fr", "blog.télérama.xn--p1ai", "xn--tlrama-bvab.xn--ii.fr", "xn--caf-dma.café.fr", "a.b.co.uk", "127.0.0.1", "[::1]", "localhost", "m.x.com", "forum-m.x.com", "www.straße.de", "faß.example.org", "notyoutube.com", "myfacebook.com", "www.netflix.com"]
 PORTS = ["", "", "", ":80", ":443", ":8080", ":0", ":65535"]
 # tokens of the C14 alphabet
 TOK = ["a", "Z", "1", "é", " ", "%41", "%c3%a9", "%C3%A9", "%20", "%2F", "%3F", "%23", "%26", "%3D", "%40", "%3A", "%25", "%2B", "%2541", "%E9",
-       "%00", "%0A", "%7F", "%C2%80", "%", "%4", "%zz", "+", "~", ".", "%2E", "%2e%2E", "-", "_"]
+       "%00", "%0A", "%7F", "%C2%80", "%", "%4", "%zz", "+", "~", ".", "%2E", "%2e%2E", "-", "_",
+       # invisible / format characters, raw and escaped; escaped whitespace that is not the ASCII space
+       "\u200c", "\u200b", "\ufeff", "\xad", "%E2%80%8C", "%C2%A0", "%E2%80%83"]
 
 
 def seg(rng, extra=()):
@@ -53,6 +55,9 @@ def gen_query(rng):
             items.append(k + "=")
         else:
             items.append(k + "=" + seg(rng, ("/", "?", "=", ":", "@")))
+    if rng.random() < 0.1:
+        # empty items: '&&', a leading or a trailing '&'
+        items.insert(rng.randrange(len(items) + 1), "")
     if rng.random() < 0.12:
         # the very same item once more (multi-valued parameters repeat)
         items.insert(rng.randrange(len(items) + 1), rng.choice(items))
@@ -101,7 +106,7 @@ def gen_host(rng):
 # query items the normalization tables know about (keys in any case, values exact / partial / empty / missing / escaped)
 Q_KEYS = ["utm_source", "utm_medium", "UTM_campaign", "source", "Source", "ref", "REF", "fbclid", "gclid", "gl", "hl", "HL", "amp", "amp_js_v", "usqp",
           "PHPSESSID", "sid", "s", "__twitter_impression", "echobox", "platform", "m", "from", "mode", "output", "xtor", "spref", "feature", "v", "id", "page",
-          "%68l", "g%6C", "utm%5Fsource", "_ga", "mc_cid", "igshid", "share", "fb_ref", "mkt_tok", "sms_ss", "f", "__tn__"]
+          "%68l", "g%6C", "utm%5Fsource", "t", "si", "_rdc", "_rdr", "ab_channel", "_ga", "mc_cid", "igshid", "share", "fb_ref", "mkt_tok", "sms_ss", "f", "__tn__"]
 Q_VALS = ["twitter", "twit", "t", "", "rss", "fb", "Twitter", "1", "true", "amp", "share", "ts", "fr", "0", "mobile", "twitter%2Ecom", "%74witter", "abc", "ios", "search"]
 
 
